@@ -512,7 +512,7 @@ def make_fuzz_scheduler(cfg):
                 rel = us(task.release_time)
                 base = max(now, rel if rel is not None and rel >= 0 else now)
                 if rng.random() < cfg.get("p_future", 0.4):
-                    base += rng.choice([1, 2, 3, 5, 10, 25])
+                    base += rng.choice(cfg.get("future_choices") or [1, 2, 3, 5, 10, 25])
                     if cfg.get("coarse_units") and rng.random() < 0.5:
                         base = (base // 1000 + 1) * 1000          # the next instant that is exact in milliseconds
                 ptime = coarse(base) if cfg.get("coarse_units") else EventTime(base, EventTime.Unit.US)
